@@ -2,6 +2,7 @@ package main
 
 import (
 	"fmt"
+	"go/token"
 	"go/types"
 	"strings"
 
@@ -14,7 +15,7 @@ func init() {
 		Title: "Lookup query discipline: bounded fan-out, at most once per address, filters, cancellation",
 		Decided: "C04.1 DoQuery has one call site, inside a goroutine whose start is dominated by outstanding++ in the same critical section, and the only caller of that starter requires outstanding < Alpha evaluated in the same critical section; " +
 			"C04.2 every insertion into the unqueried frontier is dominated by NodeFilter(n)=true for the inserted n; " +
-			"C04.3 at most once per address: the queried set is written and read under one key encoding; every insertion into it is dominated, within one critical section, by a failed lookup of the same key, and the address handed to DoQuery is the one marked; " +
+			"C04.3 at most once per address: the queried set is written and read under one key encoding; every insertion into it is dominated, within one critical section, by a failed lookup of the same key, and the address handed to DoQuery is the one marked; the set only grows (created once with the operation; afterwards only looked up, inserted into, measured or iterated - no delete, clear or hand-off); " +
 			"C04.4 the context handed to DoQuery comes from context.WithCancel whose cancel function is called by a watcher goroutine, started before the query, on the stopping event; cancel is also called after the query returns; " +
 			"C04.6 inside the traversal package the caller's Alpha and K are overwritten only on paths where the value is known to be ≤ 0 (unset), so the bound of C04.1 is the configured one; " +
 			"C04.5 every traversal.Start in library code installs (*Server).TraversalNodeFilter, whose true-class excludes blocked IPs, invalid addresses and (with security on) insecure known IDs.",
@@ -288,6 +289,47 @@ func c04r3(w *World, rr *RuleRun) {
 	if nW == 0 {
 		rr.Oblige("traversal", "the queried set has an insertion site", "-", false, "none found")
 	}
+	// the set only grows: once marked, an address stays marked for the life of the operation. The
+	// map is created with the operation, and every later use of it is a lookup, an insertion, a
+	// length or an iteration - no delete, no clear, no hand-off to code that could do either.
+	eachInstr(w.P.LibFuncs, func(fn *ssa.Function, ins ssa.Instruction) {
+		switch x := ins.(type) {
+		case *ssa.Store:
+			fa, ok := x.Addr.(*ssa.FieldAddr)
+			if !ok || fieldOfAddr(fa) != t.queried {
+				return
+			}
+			_, fresh := fa.X.(*ssa.Alloc)
+			_, mk := x.Val.(*ssa.MakeMap)
+			rr.At(w, ins, "the queried set is created once, with the operation it belongs to", fresh && mk, "stores "+trunc(w.TS.Of(x.Val).String(), 120)+" in "+shortFuncName(fn))
+		case *ssa.UnOp:
+			if x.Op != token.MUL {
+				return
+			}
+			fa, ok := x.X.(*ssa.FieldAddr)
+			if !ok || fieldOfAddr(fa) != t.queried || x.Referrers() == nil {
+				return
+			}
+			for _, r := range *x.Referrers() {
+				okUse, what := false, fmt.Sprintf("%T", r)
+				switch u := r.(type) {
+				case *ssa.Lookup, *ssa.MapUpdate, *ssa.Range, *ssa.DebugRef:
+					okUse = true
+				case ssa.CallInstruction:
+					if b, isB := u.Common().Value.(*ssa.Builtin); isB {
+						what = "builtin " + b.Name()
+						okUse = b.Name() == "len"
+					} else {
+						what = "passed to " + trunc(w.TS.Of(u.Common().Value).String(), 80)
+					}
+				}
+				if !okUse {
+					rr.At(w, r, "an address once marked queried stays marked (the set is only looked up and inserted into)", false, what+" in "+shortFuncName(fn))
+				}
+			}
+		}
+	})
+	rr.Oblige("traversal", "an address once marked queried stays marked (the set is only looked up and inserted into)", "-", true, "every use of the queried map examined")
 	// the address handed to DoQuery is the one marked: both derive from the popped candidate's Addr
 	addrF := w.P.Field("types", "AddrMaybeId", "Addr")
 	for _, site := range w.doQuerySites(t) {
